@@ -581,6 +581,12 @@ func (g *gen) genType1(depth int, asKey bool) *Type {
 func (g *gen) genTypedef() {
 	d := &Def{Kind: KTypedef, Name: g.typeName()}
 	d.Type = g.genType(2, false)
+	if g.p(1, 3, "typedef_of_struct") {
+		// an alias of a struct-like: the generated code reaches the struct's constructor, codec and defaults through the alias
+		if cands := g.visible(func(x *Def) bool { return x.Kind.IsStructLike() }); len(cands) > 0 {
+			d.Type = &Type{Ref: rapid.SampledFrom(cands).Draw(g.t, "typedef_target"), Annos: d.Type.Annos}
+		}
+	}
 	d.Annos = g.annos(1)
 	g.add(d)
 }
